@@ -177,3 +177,44 @@ impl<T: Ord> BinaryHeap<T> {
     /// arbitrary order, like std's `BinaryHeap::iter`
     pub fn iter(&self) -> impl Iterator<Item = &T> { self.slots.iter().filter_map(|s| s.as_ref()) }
 }
+
+/// Stand-in for a small `Vec<T>` (push / take / by-value iteration in insertion order) with inline
+/// storage.  Documented stub, same reason as `BinaryHeap` above: CBMC loses precision on the real
+/// `Vec` buffer after repeated allocate / into_iter / free rounds inside `CurrentBatch::flush`
+/// (spurious "pointer to unallocated memory" failures on schedules with three or more flushes).
+pub struct SVec<T> {
+    slots: [Option<T>; SVEC_CAP],
+    len: usize,
+}
+pub const SVEC_CAP: usize = 4;
+impl<T> Default for SVec<T> {
+    fn default() -> Self { SVec { slots: [None, None, None, None], len: 0 } }
+}
+impl<T> SVec<T> {
+    pub fn new() -> Self { Self::default() }
+    pub fn push(&mut self, t: T) {
+        assert!(self.len < SVEC_CAP, "shim SVec capacity exceeded");
+        self.slots[self.len] = Some(t);
+        self.len += 1;
+    }
+    pub fn len(&self) -> usize { self.len }
+    pub fn is_empty(&self) -> bool { self.len == 0 }
+}
+pub struct SVecIntoIter<T> { v: SVec<T>, next: usize }
+impl<T> Iterator for SVecIntoIter<T> {
+    type Item = T;
+    fn next(&mut self) -> Option<T> {
+        if self.next < self.v.len {
+            let i = self.next;
+            self.next += 1;
+            self.v.slots[i].take()
+        } else {
+            None
+        }
+    }
+}
+impl<T> IntoIterator for SVec<T> {
+    type Item = T;
+    type IntoIter = SVecIntoIter<T>;
+    fn into_iter(self) -> SVecIntoIter<T> { SVecIntoIter { v: self, next: 0 } }
+}
